@@ -66,6 +66,10 @@ def encode(isa, kind) -> Tuple[bytes, int]:
             "ref": (b"\x48\x8d\x05\0\0\0\0", 3) if isa == ISA.X64 else (b"\x8d\x05\0\0\0\0", 2),
             "ret": (b"\xc3", -1),
             "nop": (b"\x90", -1),
+            # call/jmp through the GOT slot of the operand, and a register-indirect jmp
+            "icallg": (b"\xff\x15\0\0\0\0", 2),
+            "ijmpg": (b"\xff\x25\0\0\0\0", 2),
+            "ijmp": (b"\xff\xe0", -1),
         }
         return t[kind]
     if isa == ISA.ARM64:
@@ -189,8 +193,11 @@ class Projector:
     position based (kind + address) so that two renderings of the same case
     are comparable."""
 
-    def __init__(self, module: gtirb.Module):
+    def __init__(self, module: gtirb.Module, naming=()):
         self.m = module
+        # symbols of the rendered case: a proxy keeps the name it was rendered
+        # under even after the symbol that named it has been deleted
+        self.naming = list(naming)
 
     def sym_name(self, s) -> str:
         if isinstance(s, gtirb.Symbol):
@@ -217,9 +224,9 @@ class Projector:
             used[base] = k + 1
             nid[b.uuid] = base if k == 0 else f"{base}.{k}"
         refs: Dict[uuid.UUID, List[str]] = {}
-        for s in m.symbols:
+        for s in list(m.symbols) + [x for x in self.naming if x.module is not m]:
             r = s._payload
-            if isinstance(r, gtirb.Block):
+            if isinstance(r, gtirb.Block) and s.name not in refs.get(r.uuid, []):
                 refs.setdefault(r.uuid, []).append(s.name)
 
         def node(n) -> str:
@@ -520,7 +527,7 @@ def build_retarget(case: dict) -> Built:
         if u["k"] == "jccft":
             ft_uses.setdefault(canon[u["s"]], []).append(i)
     for i, u in enumerate(uses):
-        if u["k"] in ("jmp", "jcc", "call", "ref"):
+        if u["k"] in ("jmp", "jcc", "call", "ref", "icallg", "ijmpg", "ijmp"):
             order.append(("U", i))
         elif u["k"] in ("pers", "lsda"):
             order.append(("C", i))
@@ -545,7 +552,7 @@ def build_retarget(case: dict) -> Built:
             if k == "ref":
                 by = by + ret_b
             ublock[x] = gth.add_code_block(b.text, by)
-            if u["k"] in ("jcc", "call"):
+            if u["k"] in ("jcc", "call", "icallg"):
                 rsite[x] = gth.add_code_block(b.text, ret_b)
     dblock: Dict[str, gtirb.DataBlock] = {}
     for n in sorted(kinds):
@@ -586,7 +593,7 @@ def build_retarget(case: dict) -> Built:
         k = u["k"]
         s = b.syms[u["s"]]
         at = attrs_of(u.get("at", []))
-        if k in ("jmp", "jcc", "jccft", "call", "ref"):
+        if k in ("jmp", "jcc", "jccft", "call", "ref", "icallg", "ijmpg", "ijmp"):
             ub = ublock[i]
             usym = gth.add_symbol(m, f"u{i}", ub)
             blocks = [ub] + ([rsite[i]] if i in rsite else [])
@@ -599,8 +606,9 @@ def build_retarget(case: dict) -> Built:
                                   patch_text(isa, k, u["s"], u.get("add", 0), u.get("at", []))))
                 continue
             _, off = encode(isa, "jcc" if k == "jccft" else k)
-            b.text.symbolic_expressions[ub.offset + off] = gtirb.SymAddrConst(
-                u.get("add", 0), s, at)
+            if off >= 0:
+                b.text.symbolic_expressions[ub.offset + off] = gtirb.SymAddrConst(
+                    u.get("add", 0), s, at)
             tgt = s.referent
             if k == "jmp":
                 edge(b, ub, tgt, ET.Branch)
@@ -615,6 +623,12 @@ def build_retarget(case: dict) -> Built:
                     callers.setdefault(canon[u["s"]], []).append(rsite[i])
             elif k == "ref":
                 edge(b, ub, anon_proxy(b), ET.Return)
+            elif k == "icallg":
+                edge(b, ub, tgt, ET.Call, direct=False)
+                if kinds[canon[u["s"]]] == "code":
+                    callers.setdefault(canon[u["s"]], []).append(rsite[i])
+            elif k in ("ijmpg", "ijmp"):
+                edge(b, ub, tgt, ET.Branch, direct=False)
         elif k == "dq":
             wb = wblock[i]
             b.data.symbolic_expressions[wb.offset] = gtirb.SymAddrConst(u.get("add", 0), s, at)
@@ -659,6 +673,9 @@ def exec_retarget(case: dict, with_reqs: bool) -> dict:
         if with_reqs:
             for old, new in case["reqs"]:
                 ctx.retarget_symbol_uses(b.syms[old], b.syms[new])
+            stage = "delete"
+            for name, force in case.get("del", []):
+                ctx.delete_symbol(b.syms[name], force=bool(force))
         stage = "apply"
         ctx.apply()
         stage = "done"
@@ -666,7 +683,7 @@ def exec_retarget(case: dict, with_reqs: bool) -> dict:
         exc = type(e).__name__
         if os.environ.get("VERIF_DEBUG"):
             traceback.print_exc()
-    st = Projector(b.m).project()
+    st = Projector(b.m, b.syms.values()).project()
     st["ser"] = roundtrip(b.ir, b.m.name)
     return {"st": st, "exc": exc, "stage": stage}
 
@@ -756,8 +773,14 @@ def build_delsym(case: dict) -> Built:
             fwd[sym] = gth.add_symbol(m, f"pk_{n}", gth.add_proxy_block(m))
         if "fwdn" in fs:
             fwd[sym] = nxt
+        if "fwd1" in fs:
+            fwd[sym] = b.syms[names[0]]
+        if "fwdkeep" in fs:
+            fwd[sym] = keep
         if "fwdv" in fs:
             fwd[gth.add_symbol(m, f"pv_{n}", gth.add_proxy_block(m))] = sym
+        if "fwdv2" in fs:
+            fwd[gth.add_symbol(m, f"pv2_{n}", gth.add_proxy_block(m))] = sym
         if n in hblock:
             hb = hblock[n]
             hsym = gth.add_symbol(m, f"h_{n}", hb)
@@ -814,6 +837,10 @@ def exec_delsym(case: dict, with_reqs: bool) -> dict:
     exc, stage = "", "register"
     try:
         ctx = RewritingContext(b.m, b.functions)
+        # a retarget registered in the same context (applied before the
+        # deletions) is part of both runs: the pre-state is the retargeted module
+        if case.get("ret"):
+            ctx.retarget_symbol_uses(b.syms[case["ret"][0]], b.syms[case["ret"][1]])
         if with_reqs:
             for name, force in case["reqs"]:
                 ctx.delete_symbol(b.syms[name], force=bool(force))
